@@ -20,6 +20,10 @@ type Line struct {
 	Start int64  `json:"start,omitempty"`
 	Line  int64  `json:"line,omitempty"`
 	Col   int64  `json:"col,omitempty"`
+	// NoFunc: the line has no Function at all (function id 0 on the wire; CheckValid rejects
+	// such a profile, so this only appears when abstracting invalid input); Func, Sys,
+	// File and Start are then meaningless and must be empty.
+	NoFunc bool `json:"nofn,omitempty"`
 }
 
 // Map describes the binary a location belongs to.
@@ -112,7 +116,7 @@ func locKey(l Loc) string {
 	var b strings.Builder
 	fmt.Fprintf(&b, "%x|%d|%v", l.Addr, l.Map, l.Folded)
 	for _, ln := range l.Lines {
-		fmt.Fprintf(&b, "|%q %q %q %d %d %d", ln.Func, ln.Sys, ln.File, ln.Start, ln.Line, ln.Col)
+		fmt.Fprintf(&b, "|%q %q %q %d %d %d %v", ln.Func, ln.Sys, ln.File, ln.Start, ln.Line, ln.Col, ln.NoFunc)
 	}
 	return b.String()
 }
@@ -151,6 +155,9 @@ func Concretize(a *AP, o Opts) *profile.Profile {
 	funcs := map[fkey]*profile.Function{}
 	locs := map[string]*profile.Location{}
 	getFunc := func(ln Line) *profile.Function {
+		if ln.NoFunc {
+			return nil
+		}
 		k := fkey{ln.Func, ln.Sys, ln.File, ln.Start}
 		if f := funcs[k]; f != nil {
 			return f
@@ -256,6 +263,8 @@ func Abstract(p *profile.Profile) *AP {
 				x := Line{Line: ln.Line, Col: ln.Column}
 				if ln.Function != nil {
 					x.Func, x.Sys, x.File, x.Start = ln.Function.Name, ln.Function.SystemName, ln.Function.Filename, ln.Function.StartLine
+				} else {
+					x.NoFunc = true
 				}
 				l.Lines = append(l.Lines, x)
 			}
